@@ -1,7 +1,7 @@
 (* C02 — rendered expressions keep the operator structure the user built.
    Statement, fragment theorem, refutation witnesses, non-vacuity examples. *)
-From PV Require Import Base Crit gen.TermsTable Terms Parse C02Model C02Expected C02Frag.
-From PV Require Import lemmas.ParsePrint lemmas.C02Lemmas lemmas.C02Final.
+From PV Require Import Base Crit gen.TermsTable Terms TermsCorr Parse C02Model C02Frag.
+From PV Require Import lemmas.ParsePrint lemmas.C02Lemmas lemmas.C02Univ lemmas.C02Final.
 From Coq Require Import ZArith.
 Local Open Scope list_scope.
 
@@ -17,8 +17,34 @@ Definition C02_full_statement : Prop :=
            eval V sa sn snot sb sp si sbt sc scs e' = eval V sa sn snot sb sp si sbt sc scs e)
     /\ adjacency_ok ts = true.
 
-(* what IS proved: the statement's conclusion for every term of the decidable fragment frag02 (any depth, any context),
-   together with the fact that the tokens are exactly pypika's text *)
+(* WHAT IS PROVED: the full statement's conclusion for every context and term (any depth, any operators) in a purely
+   syntactic scope:
+     subc c = false   - the position does not set the subcriterion flag (no position of a statement does);
+     nl false t       - no NOT hands that flag through a CASE / value list to an AND/OR term (harmless extra brackets);
+     clean e          - NOT is never an operand of an operator or predicate (pypika's own suite pins
+                        Field("foo").negate().eq("bar") to the text NOT "foo"='bar', so this cannot be repaired);
+     lex_ok e         - the leaves are lexically well-formed (raw SQL leaves do not end in '-' or '/'; the star only as
+                        a list item). *)
+Definition C02_scoped_statement : Prop :=
+  forall c t ts e, rtoks c t = Some ts -> to_expr c t = Some e ->
+    subc c = false -> nl false t = true -> clean e = true -> lex_ok e = true ->
+    render c t = Ok (flatten ts)
+    /\ (forall i T, nth_error engines i = Some T -> forallb (supported i) (ops_of e) = true ->
+       exists fuel e', parse T fuel 0 ts = Some (e', []) /\
+         forall V sa sn snot (sb : binop -> V -> V -> V) sp si sbt sc scs, obeys_identities sb ->
+           eval V sa sn snot sb sp si sbt sc scs e' = eval V sa sn snot sb sp si sbt sc scs e)
+    /\ adjacency_ok ts = true.
+
+Theorem C02_holds : C02_scoped_statement.
+Proof.
+  intros c t ts e R X S N C L. destruct (C02_universal c t ts e R X S N C L) as [Hr [Hp [He Ha]]].
+  split; [exact Hr|]. split; [|exact Ha].
+  intros i T HT _. destruct (Hp T (nth_error_In _ _ HT)) as [fuel Hf]. exists fuel, (norm e). split; [exact Hf|].
+  intros. apply He. assumption.
+Qed.
+Print Assumptions C02_holds.
+
+(* the same through the decidable scope predicate frag02 (used by the correspondence check on every generated case) *)
 Theorem C02_on_fragment : forall c t, frag02 c t = true ->
   exists ts e, rtoks c t = Some ts /\ to_expr c t = Some e
     /\ render c t = Ok (flatten ts)
@@ -33,30 +59,34 @@ Print Assumptions C02_on_fragment.
 Check parse_print.
 Print Assumptions parse_print.
 
-(* the code-sensitive obligation: re-checked against the extracted predicates on every run *)
-Theorem C02_policy_dominates_expected : forallb ok_all_engines expected_pairs = true.
-Proof. exact expected_pairs_ok. Qed.
-Print Assumptions C02_policy_dominates_expected.
+(* the code-sensitive obligations: re-checked against the extracted predicates and probed tables on every run *)
+Theorem C02_policy_dominates : forall p h, allowed (p, h) = true -> ok_all_engines (p, h) = true.
+Proof. exact allowed_ok. Qed.
+Print Assumptions C02_policy_dominates.
+Theorem C02_tokens_are_the_printers : forall c t ts e, rtoks c t = Some ts -> to_expr c t = Some e ->
+  subc c = false -> nl false t = true -> ts = pr impl_pol e /\ atoms_ok e = true.
+Proof. exact tokens_are_printed. Qed.
+Print Assumptions C02_tokens_are_the_printers.
 
-(* ---- the full statement is FALSE of the faithful model: unary minus over a compound ---- *)
+(* ---- the UNSCOPED statement is false of the faithful model: NOT as an operand ---- *)
 Definition fa := TField "a" None None.
 Definition fb := TField "b" None None.
 Definition fc := TField "c" None None.
-Definition w_neg_sum := TNeg (TArith OAdd fa fb None).           (* -(a+b)  renders  -"a"+"b" *)
-Definition w_sub_neglit := TArith OSub fa (TValI (-1) None) None. (* a-(-1)  renders  "a"--1 *)
+Definition w_not_eq := TBasic CEq (TNot fa None) fb None.            (* (NOT a) = b  renders  NOT "a"="b" *)
+Definition w_div_star := TArith ODiv fa (TStar None) None.            (* a / *  renders  "a"/*  (not a well-typed tree) *)
 Definition env1 (s : string) : Z := if String.eqb s """a""" then 1%Z else if String.eqb s """b""" then 2%Z else 4%Z.
 
 Theorem C02_refuted : ~ C02_full_statement.
 Proof.
   intros H.
-  destruct (rtoks str_ctx w_neg_sum) as [ts|] eqn:R; [|vm_compute in R; discriminate].
-  destruct (to_expr str_ctx w_neg_sum) as [e|] eqn:X; [|vm_compute in X; discriminate].
-  destruct (H str_ctx w_neg_sum ts e R X) as [Hs _].
+  destruct (rtoks str_ctx w_not_eq) as [ts|] eqn:R; [|vm_compute in R; discriminate].
+  destruct (to_expr str_ctx w_not_eq) as [e|] eqn:X; [|vm_compute in X; discriminate].
+  destruct (H str_ctx w_not_eq ts e R X) as [Hs _].
   destruct (Hs 0 pg eq_refl) as [fuel [e' [Hp Hev]]].
   { vm_compute in X. inversion X; subst. vm_compute. reflexivity. }
   vm_compute in R. inversion R; subst ts. vm_compute in X. inversion X; subst e.
-  assert (W : parse pg 40 0 [KNeg; KAtom """a"""; KOp (BA OAdd); KAtom """b"""]
-              = Some (EBin (BA OAdd) (ENeg (EAtom """a""")) (EAtom """b"""), [])) by (vm_compute; reflexivity).
+  assert (W : parse pg 40 0 [KNot; KAtom """a"""; KOp (BC CEq); KAtom """b"""]
+              = Some (ENot (EBin (BC CEq) (EAtom """a""") (EAtom """b""")), [])) by (vm_compute; reflexivity).
   pose proof (parse_det _ _ _ _ _ _ _ Hp W) as E. inversion E; subst e'.
   specialize (Hev Z env1 Z.opp (fun x => (1 - x)%Z) z_bin (fun _ x => x) (fun _ x _ => x) (fun x _ _ => x)
                   (fun _ _ => 0%Z) (fun _ _ => 0%Z) z_bin_laws).
@@ -64,27 +94,40 @@ Proof.
 Qed.
 Print Assumptions C02_refuted.
 
-(* second witness: the lexical clause -- a negative literal to the right of '-' creates the comment introducer -- *)
+(* second witness, for the lexical clause: the star as right operand of '/' *)
 Theorem C02_refuted_comment : exists c t ts, rtoks c t = Some ts /\ adjacency_ok ts = false
-  /\ flatten ts = """a""--1".
-Proof. exists str_ctx, w_sub_neglit. eexists. split; [vm_compute; reflexivity|]. split; vm_compute; reflexivity. Qed.
+  /\ flatten ts = """a""/*".
+Proof. exists str_ctx, w_div_star. eexists. split; [vm_compute; reflexivity|]. split; vm_compute; reflexivity. Qed.
 Print Assumptions C02_refuted_comment.
 
-(* further machine-checked witnesses: each engine reads a different tree than the one built *)
+(* the witnesses lie outside the proved scope, as they must *)
+Example C02_witnesses_out_of_scope : frag02 str_ctx w_not_eq = false /\ frag02 str_ctx w_div_star = false.
+Proof. vm_compute. split; reflexivity. Qed.
+
+(* the shapes that were misread before the repairs (unary minus over a compound, double minus, shifts, predicates as
+   operands) are in scope now, read back correctly, and render with the parentheses the tree needs *)
 Definition misread (t : term) : bool :=
   match rtoks str_ctx t, to_expr str_ctx t with
   | Some ts, Some e => existsb (fun T => match read_with T ts with Some e' => negb (expr_eqb e' (norm e)) | None => true end) engines
   | _, _ => false end.
-Example C02_witnesses_misread :
-  map misread
-    [ w_neg_sum;                                                           (* -(a+b) *)
-      TNeg (TNeg fa);                                                      (* -(-a): tokens parse, text is a comment: see adjacency *)
-      TArith OAdd (TArith OShl fa fb None) fc None;                        (* (a<<b)+c *)
-      TArith OShl fa (TArith OShl fb fc None) None;                        (* a<<(b<<c) *)
-      TArith OMul fa (TArith OShl fb fc None) None;                        (* a*(b<<c) *)
-      TArith OAdd (TBasic CGt fa fb None) (TValI 1 None) None;             (* (a>b)+1 *)
-      TBasic CEq fa (TCplx BAnd (TBasic CEq fb (TValI 1 None) None) (TBasic CEq fc (TValI 2 None) None) None) None  (* a=(b=1 AND c=2) *)
-    ] = [true; false; true; true; true; true; true].
+Definition repaired_witnesses : list term :=
+  [ TNeg (TArith OAdd fa fb None);                                       (* -(a+b) *)
+    TArith OSub fa (TValI (-1) None) None;                               (* a-(-1) *)
+    TNeg (TNeg fa);                                                      (* -(-a) *)
+    TArith OAdd (TArith OShl fa fb None) fc None;                        (* (a<<b)+c *)
+    TArith OShl fa (TArith OShl fb fc None) None;                        (* a<<(b<<c) *)
+    TArith OMul fa (TArith OShl fb fc None) None;                        (* a*(b<<c) *)
+    TArith OAdd (TBasic CGt fa fb None) (TValI 1 None) None;             (* (a>b)+1 *)
+    TBasic CEq fa (TCplx BAnd (TBasic CEq fb (TValI 1 None) None) (TBasic CEq fc (TValI 2 None) None) None) None  (* a=(b=1 AND c=2) *)
+  ].
+Example C02_repaired_behaviour :
+  map misread repaired_witnesses = [false; false; false; false; false; false; false; false]
+  /\ map (frag02 str_ctx) repaired_witnesses = [true; true; true; true; true; true; true; true]
+  /\ map (render_text str_ctx) repaired_witnesses =
+     [ "-(""a""+""b"")"; """a""-(-1)"; "-(-""a"")"; "(""a""<<""b"")+""c"""; """a""<<(""b""<<""c"")"; """a""*(""b""<<""c"")";
+       "(""a"">""b"")+1"; """a""=(""b""=1 AND ""c""=2)" ].
+Proof. vm_compute. repeat split; reflexivity. Qed.
+Example C02_witness_misread : misread w_not_eq = true.
 Proof. vm_compute. reflexivity. Qed.
 
 (* ---- non-vacuity: a deep, mixed term lies in the fragment; so the theorem applies to it ---- *)
